@@ -39,6 +39,8 @@ type World struct {
 	Insts      map[peer.ID]*Inst
 	reqCancels []context.CancelFunc
 	Steps      int
+	// OnDeliver, when set, observes every envelope DeliverAll / Quiesce release.
+	OnDeliver func(e *Envelope)
 }
 
 // Inst is a real GraphSync instance.
@@ -131,7 +133,9 @@ func (w *World) DeliverAll(maxSteps int) int {
 		if len(pl) == 0 {
 			return n
 		}
-		w.Net.Deliver(pl[0][0], pl[0][1])
+		if e := w.Net.Deliver(pl[0][0], pl[0][1]); e != nil && w.OnDeliver != nil {
+			w.OnDeliver(e)
+		}
 		n++
 		w.Steps++
 		if maxSteps > 0 && n >= maxSteps {
